@@ -451,7 +451,7 @@ func runConcurrent(p c06Params, env *runner.Env, res *runner.Result, label strin
 	defer x.Close()
 	cur := map[string]map[string]inst.Ver{}
 	var mu sync.Mutex
-	var wmu sync.Mutex // held by the writer across (LMDB commit + recording): the evaluation never sees a half-recorded commit
+	var wmu sync.Mutex  // held by the writer across (LMDB commit + recording): the evaluation never sees a half-recorded commit
 	var states []wstate // states[i] = content after the i-th writer commit (index 0 = initial)
 	var completed int64 // number of writer commits completed (index of the newest state)
 	dynN := 0
